@@ -41,6 +41,7 @@ type PureFunc struct {
 	Ret    string
 	Body   string
 	Rec    bool
+	Unfold bool // recursive, axiomatised by instantiating the definition at its (quantifier-free) use sites, two levels deep
 	Src    string
 }
 
@@ -403,7 +404,7 @@ func splitRecvField(s string) (string, string, bool) {
 	return t, s[k+2:], true
 }
 
-var pureRe = regexp.MustCompile(`^(rec\s+)?func\s+([A-Za-z_][A-Za-z0-9_]*)\s*\(([^)]*)\)\s*([A-Za-z0-9_\[\]]+)\s*=\s*(.*)$`)
+var pureRe = regexp.MustCompile(`^(rec\s+|unfold\s+)?func\s+([A-Za-z_][A-Za-z0-9_]*)\s*\(([^)]*)\)\s*([A-Za-z0-9_\[\]]+)\s*=\s*(.*)$`)
 
 
 func parsePure(pkg, s, src string) (*PureFunc, error) {
@@ -411,7 +412,7 @@ func parsePure(pkg, s, src string) (*PureFunc, error) {
 	if m == nil {
 		return nil, fmt.Errorf("bad pure func: %q", s)
 	}
-	pf := &PureFunc{Pkg: pkg, Name: m[2], Ret: m[4], Body: m[5], Rec: m[1] != "", Src: src}
+	pf := &PureFunc{Pkg: pkg, Name: m[2], Ret: m[4], Body: m[5], Rec: strings.HasPrefix(m[1], "rec"), Unfold: strings.HasPrefix(m[1], "unfold"), Src: src}
 	// params: "a, b int, c bool"
 	var pending []string
 	for _, p := range strings.Split(m[3], ",") {
